@@ -151,6 +151,14 @@ func runC10(tb stat.TB, c c10Case) {
 				return
 			}
 		}
+		// the identity a request really runs under (end to end through HandleCall), in every squash mode
+		lm := strings.ToLower(c.Squash)
+		if lm == "" || lm == "none" || lm == "root" || lm == "all" {
+			nontrivial = true
+			if c10EndToEnd(tb, c, what, 65534, 65534, nil) {
+				return
+			}
+		}
 	case c.Flavor != 1:
 		nontrivial = true
 		if res.Allowed {
@@ -224,6 +232,9 @@ func c10EndToEnd(tb stat.TB, c c10Case, what string, wu, wg uint32, waux []uint3
 		// make the mode 0070 known to the server (anyone may chmod: no permission enforcement in absnfs)
 		s.nfsAs(drv.Client{IP: "127.0.0.1", Port: 700, Cred: nfsx.AuthSys(1, "h", 5, 5, nil)}, nfsx.ProcSetattr, nfsx.ArgsSetattr(lr.Fh, nfsx.Sattr{Mode: nfsx.U32p(0070)}, nil))
 		cl := drv.Client{IP: "127.0.0.1", Port: 700, Cred: nfsx.Auth{Flavor: 1, Body: c.body()}}
+		if c.Flavor == 0 {
+			cl.Cred = nfsx.AuthNone()
+		}
 		xid := s.e.NextXid()
 		wire, actx, err := s.e.CallCtx(cl, nfsx.Call(xid, nfsx.ProgNFS, 3, nfsx.ProcAccess, cl.Cred, nfsx.AuthNone(), nfsx.ArgsAccess(lr.Fh, 0x3f)))
 		if err != nil {
